@@ -190,8 +190,11 @@ def run_sequence(res, exe, rng, first, forced=None):
                         return fail("callback/%s" % beh, desc + ": callbacks %r, reference one with code %s" % (cb, "%08x" % expect_code if isinstance(expect_code, int) else expect_code))
                     if cb[0][1] != tr.idx or cb[0][2] != tr.sub:
                         return fail("callback/mux", desc + ": callback names %04x:%d" % (cb[0][1], cb[0][2]))
-                    if [x for x in fr if x[1] == TX and x[2][0] != 0x80]:
-                        return fail("request-frame/after-end", desc + ": client sent %r after the end of the transfer" % [d.hex() for _, _, d in fr])
+                    # after the end of a transfer the client is silent; only for an error it detected itself may it send an abort to the server
+                    local_error = expect_code == "nonzero" or expect_code == "any"
+                    stray = [x for x in fr if not (local_error and x[1] == TX and x[2][0] == 0x80)]
+                    if stray:
+                        return fail("request-frame/after-end/%s" % beh, desc + ": client sent %r after the end of the transfer" % [("%x" % c, d.hex()) for _, c, d in stray])
                     done = cb[0][3]
                     break
                 if cb:
